@@ -13,7 +13,7 @@ REVERT = {"12105e7": ["C20"], "51f7c5b": ["C14", "C05"], "68c531e": ["C15"], "08
           "757c07d": ["C08"], "f0fc689": ["C14"], "3581ec3": ["C14"], "1ab53b3": ["C17"], "124adb2": ["C14"], "fb3f760": ["C15", "C03", "C01"]}
 OVERRIDE = {"w6_C02": ["C02", "C03", "C04"], "w6_C03": ["C03", "C05"], "w6_C04": ["C04", "C02"], "w6_C17": ["C17", "C10"], "w6_C18": ["C18", "C01"]}
 # changes to translated sources: the Coq stage (regenerated PySrc*.v + proofs) is part of the detection
-OVERRIDE.update({"w11_C03": ["C03", "C04"], "w11_C08": ["C08", "C05"], "w11_C12": ["C12", "C05"], "w11_C16": ["C16", "C02"], "w11_C17": ["C17", "C10"], "w11_C19": ["C19"], "w11_C01": ["C01", "C03"], "w11_C13": ["C13", "C12"], "w10_C02": ["C02", "C04"], "w10_C04": ["C04", "C02"], "w10_C05": ["C05", "C03"], "w10_C06": ["C06", "C15"], "w10_C07": ["C07", "C06"], "w10_C11": ["C11"], "w10_C14": ["C14", "C01"], "w10_C15": ["C15", "C04"], "w9_C01": ["C01", "C03"], "w9_C03": ["C03", "C18"], "w9_C20": ["C20"], "w9_C18": ["C18", "C03"], "w8_C18": ["C10", "C18"], "w8_C01": ["C14", "C01"], "w7_C05": ["C05", "C12"], "w7_C15": ["C15", "C06"], "w7_C14": ["C14", "C05"]})
+OVERRIDE.update({"w12_C02": ["C15", "C02"], "w12_C07": ["C07", "C06"], "w12_C09": ["C09", "C10"], "w12_C10": ["C10", "C02"], "w12_C18": ["C18", "C03"], "w12_C20": ["C20"], "w11_C03": ["C03", "C04"], "w11_C08": ["C08", "C05"], "w11_C12": ["C12", "C05"], "w11_C16": ["C16", "C02"], "w11_C17": ["C17", "C10"], "w11_C19": ["C19"], "w11_C01": ["C01", "C03"], "w11_C13": ["C13", "C12"], "w10_C02": ["C02", "C04"], "w10_C04": ["C04", "C02"], "w10_C05": ["C05", "C03"], "w10_C06": ["C06", "C15"], "w10_C07": ["C07", "C06"], "w10_C11": ["C11"], "w10_C14": ["C14", "C01"], "w10_C15": ["C15", "C04"], "w9_C01": ["C01", "C03"], "w9_C03": ["C03", "C18"], "w9_C20": ["C20"], "w9_C18": ["C18", "C03"], "w8_C18": ["C10", "C18"], "w8_C01": ["C14", "C01"], "w7_C05": ["C05", "C12"], "w7_C15": ["C15", "C06"], "w7_C14": ["C14", "C05"]})
 WITH_COQ = {"w6_C02", "w7_C15", "w9_C01"}
 def sh(cmd, **kw):
     return subprocess.run(cmd, shell=True, capture_output=True, text=True, errors="replace", **kw)
